@@ -21,6 +21,11 @@ instance : Monad Out where
   pure := .ok
   bind := Out.bind
 
+instance : LawfulMonad Out := LawfulMonad.mk'
+  (id_map := by intro α x; cases x <;> rfl)
+  (pure_bind := by intros; rfl)
+  (bind_assoc := by intro α β γ x f g; cases x <;> rfl)
+
 /-- `.ok_or(e)?` / `.map_err(|_| e)?` -/
 def Out.orErr {α : Type} (x : Out α) (e : String) : Out α :=
   match x with
